@@ -1,7 +1,104 @@
 import PydlVerif.Model.JsonUtil
+import PydlVerif.Model.Scalar
+import PydlVerif.Model.BSpline
+import PydlVerif.Model.BSplineFit
 open Lean
 namespace PydlVerif.Driver.C09
+open PydlVerif PydlVerif.BSpline PydlVerif.BSplineFit
 
-def handle (_j : Json) : Except String Json := throw "C09: no model operations yet"
+/-! Float stand-ins for the LAPACK kernels that the model takes as parameters (textbook banded
+Cholesky `dpbtf2`-style and the two triangular solves).  They are NOT part of the model; the
+comparison with the real code is within tolerance. -/
+
+def g2 (m : Array (Array Float)) (r c : Nat) : Float := (m[r]!)[c]!
+
+/-- lower band form `A[r][c] = A_full[c+r][c]`; returns `none` when a pivot is not positive -/
+def cholFactorF (bw n : Nat) (A : Array (Array Float)) : Option (Array (Array Float)) := Id.run do
+  let mut L := A
+  for j in [0:n] do
+    let d := g2 L 0 j
+    if !(d > 0) then return none
+    let s := Float.sqrt d
+    L := L.modify 0 (fun row => row.set! j s)
+    for r in [1:bw] do
+      if j + r < n then
+        L := L.modify r (fun row => row.modify j (fun v => v / s))
+    for i in [1:bw] do
+      if j + i < n then
+        let xi := g2 L i j
+        for r in [0:bw - i] do
+          if j + i + r < n then
+            let xr := g2 L (i + r) j
+            L := L.modify r (fun row => row.modify (j + i) (fun v => v - xi * xr))
+  -- entries below the matrix are not referenced by LAPACK; scipy returns them unchanged
+  return some L
+
+def cholSolveF (bw n : Nat) (L : Array (Array Float)) (b : Array Float) : Array Float := Id.run do
+  let mut y := b
+  for i in [0:n] do
+    let mut s := y[i]!
+    for r in [1:bw] do
+      if r ≤ i then s := s - g2 L r (i - r) * y[i - r]!
+    y := y.set! i (s / g2 L 0 i)
+  for ii in [0:n] do
+    let i := n - 1 - ii
+    let mut s := y[i]!
+    for r in [1:bw] do
+      if i + r < n then s := s - g2 L r i * y[i + r]!
+    y := y.set! i (s / g2 L 0 i)
+  return y
+
+def kernelsF : Kernels Float :=
+  { sqrt := Float.sqrt, isFinite := Float.isFinite, cholFactor := cholFactorF, cholSolve := cholSolveF }
+
+def floats (j : Json) (k : String) : Except String (List Float) := do J.list J.float (← J.fld j k)
+def encL (l : List Float) : Json := J.ofList J.ofFloat l
+def encM (m : Array (Array Float)) : Json := J.ofList (fun r => encL r.toList) m.toList
+
+def bsOf (j : Json) : Except String (BS Float) := do
+  pure { nord := ← J.fNat j "nord"
+         breakpoints := (← floats j "bk").toArray
+         mask := (← J.list J.bool (← J.fld j "mask")).toArray
+         coeff := (← floats j "coeff").toArray }
+
+def resJ {β} (f : β → Json) : BSpline.R β → Json
+  | .ok v => Json.mkObj [("ok", f v)]
+  | .error e => Json.mkObj [("err", Json.str e)]
+
+def cholResJ : CholRes Float → Json
+  | .factor L => Json.mkObj [("status", J.ofInt (-1)), ("L", encM L)]
+  | .bad idx sc => Json.mkObj [("idx", J.ofList J.ofNat idx), ("scalar", Json.bool sc)]
+
+def handle (j : Json) : Except String Json := do
+  let op ← J.fStr j "op"
+  match op with
+  | "fit" =>
+    let b ← bsOf j
+    let xs ← floats j "x"
+    let ys ← floats j "y"
+    let ws ← floats j "w"
+    let perm ← J.fNats j "perm"
+    if ys.length ≠ xs.length ∨ ws.length ≠ xs.length then throw "C09 fit: lengths differ" else
+    let r := fit kernelsF b xs ys ws perm
+    pure (resJ (fun (o : FitOut Float) => Json.mkObj [
+      ("status", J.ofInt o.status), ("yfit", encL o.yfit), ("coeff", encL o.obj.coeff.toList),
+      ("mask", J.ofList Json.bool o.obj.mask.toList), ("alpha", encM o.alpha), ("beta", encL o.beta.toList)]) r)
+  | "chol" =>
+    let l ← J.list (J.list J.float) (← J.fld j "l")
+    let mininf ← J.fFloat j "mininf"
+    let la := (l.map List.toArray).toArray
+    if la.any (fun r => r.size ≠ (la[0]!).size) then throw "C09 chol: ragged" else
+    pure (resJ cholResJ (choleskyBand kernelsF la mininf))
+  | "solve" =>
+    let a ← J.list (J.list J.float) (← J.fld j "a")
+    let bb ← floats j "b"
+    pure (encL (choleskySolve kernelsF (a.map List.toArray).toArray bb.toArray).toList)
+  | "maskpoints" =>
+    let mask ← J.list J.bool (← J.fld j "mask")
+    let nord ← J.fNat j "nord"
+    let err ← J.fNats j "err"
+    let (st, m) := maskpoints mask.toArray nord err
+    pure (Json.mkObj [("status", J.ofInt st), ("mask", J.ofList Json.bool m.toList)])
+  | _ => throw s!"C09: unknown op {op}"
 
 end PydlVerif.Driver.C09
